@@ -375,3 +375,26 @@ CONTRACTS["ufo2ft.featureWriters.gdefFeatureWriter:GdefFeatureWriter._sortedGlyp
     gdef_cases, lambda d: {"self": gdef_writer(d), "glyphNames": set(d["names"])}, call=lambda fn, a: fn(a["self"], a["glyphNames"]))
 for _v in ("keys", "sorted", "sound", "complete"):
     CONTRACTS[GLC + "#" + _v].runtime = Runtime(gdef_cases, lambda d: {"self": gdef_writer(d)}, call=lambda fn, a: fn(a["self"]))
+
+
+# ---- the same helpers for the receiver class of the first-wave GDEF contracts (c17_Writer: context = SimpleNamespace model c17_NS) ------------
+# `GdefFeatureWriter._write#classdefs` and `setContext` (contracts/c18.py) used opaque stand-ins for `_sortedGlyphClass` / `_getLigatureCarets`;
+# with these variants they call the real functions' contracts.
+contract(
+    "ufo2ft.featureWriters.gdefFeatureWriter:GdefFeatureWriter._sortedGlyphClass",
+    name="c17_Writer",
+    props=["C18"],
+    params={"self": Ref("c17_Writer"), "glyphNames": Set(STR)},
+    returns=List(STR),
+    globals={"sorted": SORTED},
+    ensures={
+        "only-exported-members": f"all(n in {_OGS} and n in glyphNames for n in result)",
+        "every-exported-member": f"all(implies(n in glyphNames, n in result) for n in {_OGS})",
+        "increasing": "all(all(implies(k1 < k2, result[k1] <= result[k2]) for k2 in range(len(result))) for k1 in range(len(result)))",
+    },
+    canaries={"empty": "len(result) == 0"},
+)
+
+from . import c18 as _c18  # noqa: E402,F401  (defines the class c17_Writer's GDEF vocabulary; imported late: c18 does not depend on this file)
+
+CLASSES["c17_Writer"].methods["_sortedGlyphClass"] = "ufo2ft.featureWriters.gdefFeatureWriter:GdefFeatureWriter._sortedGlyphClass#c17_Writer"
